@@ -276,11 +276,12 @@ def run_shard(spec: dict) -> ShardResult:
 
         # ---- from_data (flat array -> components) -----------------------------------
         classes = [type(m) for m in members]
-        for with_ghost in (True, False):
+        for with_ghost, give_dtype in ((True, True), (False, True), (True, False), (False, False)):
             flat = (fc._data_full if with_ghost else fc.data).copy()
-            case = {"grid": gspec, "collection_ranks": ranks, "dtype": dtype, "route": f"from_data(with_ghost_cells={with_ghost})"}
+            case = {"grid": gspec, "collection_ranks": ranks, "dtype": dtype, "route": f"from_data(with_ghost_cells={with_ghost}{', dtype given' if give_dtype else ''})"}
+            kw = {"dtype": dtype} if give_dtype else {}  # without dtype the data array decides
             try:
-                fc3 = pde.FieldCollection.from_data(classes, grid, flat, with_ghost_cells=with_ghost, labels=list(fc.labels), dtype=dtype)
+                fc3 = pde.FieldCollection.from_data(classes, grid, flat, with_ghost_cells=with_ghost, labels=list(fc.labels), **kw)
             except Exception as exc:
                 res.violation(f"from_data raised {type(exc).__name__}: {exc}", case)
                 continue
@@ -297,7 +298,7 @@ def run_shard(spec: dict) -> ShardResult:
             if ok and not np.array_equal(fc3.data, fc.data):
                 res.violation("from_data: collection data differs", case)
             res.count("from_data_roundtrips")
-            res.case(("from_data", gkey, ranks, dtype, with_ghost))
+            res.case(("from_data", gkey, ranks, dtype, with_ghost, give_dtype))
 
         # ---- storage info round trip ------------------------------------------------
         if case_no % 2 == 0:
